@@ -183,6 +183,16 @@ def variant_table(ctx, path, argidx=1):
             out[str(sel)] = ("?", short(rt))
         else:
             out[sel] = rt[2]
+    # the table may live in a helper that this function reads through (`let (e, _) = self.parts(); e`): evaluate per variant
+    try:
+        adt = re.sub(r"^&('\w+ )?", "", body.locals[argidx]["ty"]).strip()
+        for v in enum_variants(ctx.F, adt):
+            if not isinstance(out.get(v), str):
+                sv = spec_eval(ctx.F, body, {argidx: v})
+                if sv is not None and sv[0] == "agg" and not sv[3]:
+                    out[v] = sv[2]
+    except Exception:
+        pass
     return body, out
 
 
